@@ -183,8 +183,58 @@ func readAssign(as *ast.AssignStmt, recvVar string, widths map[string]int, local
 	return litem{}, false
 }
 
+// stickyReaders: helper types of the file that read consecutive fields and stop at the first failure:
+//   type T struct { r *reader.Reader; err error }
+//   func (f *T) m(dst *uintN) { if f.err == nil { *dst, f.err = f.r.UintN() } }
+// Returns type name -> method name -> width, for the methods that have exactly that shape (so that `f.m(&x.F)` is a read of
+// x.F of that width that happens only while no earlier read has failed, and `return f.err` returns the first failure).
+func stickyReaders(f *ast.File) map[string]map[string]int {
+	out := map[string]map[string]int{}
+	for _, d := range f.Decls {
+		fd, ok := d.(*ast.FuncDecl)
+		if !ok || fd.Recv == nil || fd.Body == nil || len(fd.Recv.List) != 1 || len(fd.Recv.List[0].Names) != 1 {
+			continue
+		}
+		rt := fd.Recv.List[0].Type
+		if st, ok := rt.(*ast.StarExpr); ok {
+			rt = st.X
+		} else {
+			continue // a value receiver could not keep the error
+		}
+		tn, ok := rt.(*ast.Ident)
+		if !ok || fd.Type.Params == nil || len(fd.Type.Params.List) != 1 || len(fd.Type.Params.List[0].Names) != 1 || fd.Type.Results != nil {
+			continue
+		}
+		rv, dst := fd.Recv.List[0].Names[0].Name, fd.Type.Params.List[0].Names[0].Name
+		if len(fd.Body.List) != 1 {
+			continue
+		}
+		ifs, ok := fd.Body.List[0].(*ast.IfStmt)
+		if !ok || ifs.Init != nil || ifs.Else != nil || exprString(ifs.Cond) != rv+".err == nil" || len(ifs.Body.List) != 1 {
+			continue
+		}
+		as, ok := ifs.Body.List[0].(*ast.AssignStmt)
+		if !ok || len(as.Lhs) != 2 || len(as.Rhs) != 1 || as.Tok != token.ASSIGN || exprString(as.Lhs[0]) != "*"+dst || exprString(as.Lhs[1]) != rv+".err" {
+			continue
+		}
+		for name, w := range readerWidth {
+			if exprString(as.Rhs[0]) == rv+".r."+name+"()" {
+				if pt, ok := fd.Type.Params.List[0].Type.(*ast.StarExpr); ok && typeWidth[exprString(pt.X)] == w {
+					if out[tn.Name] == nil {
+						out[tn.Name] = map[string]int{}
+					}
+					out[tn.Name][fd.Name.Name] = w
+				}
+			}
+		}
+	}
+	return out
+}
+
 func extractLayout(f *ast.File, sp layoutSpec) []litem {
 	widthsAll := structWidths(f)
+	sticky := stickyReaders(f)
+	stickyVar, stickyType := "", ""
 	for _, d := range f.Decls {
 		fd, ok := d.(*ast.FuncDecl)
 		if !ok || fd.Name.Name != sp.method || fd.Recv == nil || len(fd.Recv.List) != 1 {
@@ -211,6 +261,9 @@ func extractLayout(f *ast.File, sp layoutSpec) []litem {
 				}
 				items = append(items, litem{"!decl:" + exprString(s), 0})
 			case *ast.ReturnStmt:
+				if stickyVar != "" && !(len(s.Results) == 1 && exprString(s.Results[0]) == stickyVar+".err") {
+					items = append(items, litem{"!return:" + exprString(s), 0}) // the first failure must be what is returned
+				}
 				continue
 			case *ast.IfStmt:
 				if as, ok := s.Init.(*ast.AssignStmt); ok && isErrCheckReturn(s) {
@@ -224,6 +277,15 @@ func extractLayout(f *ast.File, sp layoutSpec) []litem {
 				if it, ok := readAssign(s, recvVar, widths, locals); ok {
 					items = append(items, it)
 					continue
+				}
+				// f := T{r: r} with T a sticky-error field reader of this file
+				if len(s.Lhs) == 1 && len(s.Rhs) == 1 && s.Tok == token.DEFINE && len(items) == 0 {
+					if cl, ok := s.Rhs[0].(*ast.CompositeLit); ok && cl.Type != nil && sticky[exprString(cl.Type)] != nil && len(cl.Elts) == 1 {
+						if kv, ok := cl.Elts[0].(*ast.KeyValueExpr); ok && exprString(kv.Key) == "r" && exprString(kv.Value) == "r" {
+							stickyVar, stickyType = exprString(s.Lhs[0]), exprString(cl.Type)
+							continue
+						}
+					}
 				}
 				// buf := make([]byte, N)
 				if len(s.Lhs) == 1 && len(s.Rhs) == 1 {
@@ -266,6 +328,21 @@ func extractLayout(f *ast.File, sp layoutSpec) []litem {
 				}
 				items = append(items, litem{"!assign:" + exprString(s), 0})
 			case *ast.ExprStmt:
+				// f.u16(&x.F) through a sticky-error field reader
+				if call, ok := s.X.(*ast.CallExpr); ok && stickyVar != "" {
+					if se, ok := call.Fun.(*ast.SelectorExpr); ok && exprString(se.X) == stickyVar && len(call.Args) == 1 {
+						if w, ok := sticky[stickyType][se.Sel.Name]; ok {
+							if fn, ok := selField(call.Args[0], recvVar); ok {
+								if widths[fn] != 0 && widths[fn] != w {
+									items = append(items, litem{"!width-mismatch:" + fn, 0})
+								} else {
+									items = append(items, litem{fn, w})
+								}
+								continue
+							}
+						}
+					}
+				}
 				// r.Seek(N, 1)
 				if call, ok := s.X.(*ast.CallExpr); ok {
 					if se, ok := call.Fun.(*ast.SelectorExpr); ok && se.Sel.Name == "Seek" && len(call.Args) == 2 {
